@@ -108,7 +108,14 @@ func genBed(rng *rand.Rand) Rec {
 		sizes[i], starts[i] = coord(rng), coord(rng)
 	}
 	rgb := []int{}
-	if rng.Intn(2) == 0 {
+	switch rng.Intn(6) {
+	case 0:
+		rgb = []int{0, 0, 0} // opaque black
+	case 1:
+		rgb = []int{0, 0, rng.Intn(2)}
+	case 2:
+		rgb = []int{255, 255, 255}
+	case 3, 4:
 		rgb = []int{rng.Intn(256), rng.Intn(256), rng.Intn(256)}
 	}
 	return Rec{"chrom": ints(field(rng)), "start": coord(rng), "end": coord(rng), "name": ints(field(rng)),
@@ -267,7 +274,8 @@ func damage(rng *rand.Rand, format string, text []byte) ([]byte, string) {
 	cols := bytes.Split(lines[li], []byte{'\t'})
 	ci := rng.Intn(len(cols))
 	toks := []string{"", "0", "-1", "x", "+", ".", "9223372036854775807", "9223372036854775808", "-9223372036854775809",
-		"99999999999999999999999", "0x10", "1e3", "1_0", " ", "#", "256", "-0", "007"}
+		"99999999999999999999999", "0x10", "1e3", "1_0", " ", "#", "256", "-0", "007",
+		"255,128", "0,0", "1,2,3,4", ",", "1,", ",1", "1,,2", "0,0,0", "300,1,1", "1,2,x"}
 	switch rng.Intn(9) {
 	case 0:
 		return t[:rng.Intn(len(t))], "truncate"
@@ -425,6 +433,17 @@ func Random(w *vt.W, rng *rand.Rand, n int, big bool) {
 		results, _, detail := ReadAll(format, cfg, t, id)
 		w.Emit(vt.Ev{"op": "big", "fmt": format, "cfg": cfg, "valid": true, "bytes": len(t), "layout": ops,
 			"want": digest(recs), "got": digest(results), "bad": bad, "detail": detail})
+		// the same large file after damage: only totality is judged (C03)
+		dt, what := damage(rng, format, t)
+		dres, dstop, ddetail := ReadAll(format, cfg, dt, id)
+		marks := []string{}
+		for _, r := range dres {
+			if k, ok := r["kind"].(string); ok && (k == "panic" || k == "hang") {
+				marks = append(marks, k)
+			}
+		}
+		w.Emit(vt.Ev{"op": "bigmut", "fmt": format, "cfg": cfg, "valid": false, "bytes": len(dt), "damage": what,
+			"nlines": bytes.Count(dt, []byte{'\n'}) + 1, "stop": dstop, "marks": marks, "detail": ddetail})
 	}
 }
 
